@@ -27,6 +27,16 @@ var commonAssumptions = []string{
 }
 
 var props = map[string]propCfg{
+	"C15": {
+		Race: true, QuickBatches: 8, ThoroughBatches: 64, Parallel: 8, Level: "exploration", Floor: 50,
+		Rule:        "a pool of ~250 frames (captured receiver frames; generated well-formed MSM4/MSM7 of all 14 types incl. illegal timestamps and padding, truncated ill-formed bodies, 1005/1006 well-formed and truncated, random frames of other types). Canonical result per frame and log level = decoded struct (reflect.DeepEqual) and readable text with the two MSM time lines removed, from a fresh handler processing that frame first. Histories: 200 frames in random order with immediate and distant repetitions through ONE handler at both levels, each step compared with the canonical result, displayed twice, raw-byte hash before/after. Concurrency under the race detector: 2-16 goroutines each with its own handler decoding from the SAME input byte slices, every message value-copied (as the fan-out does) to 2-4 consumer goroutines that display, Analyse, PrepareForDisplay, Copy and set their own log level; GOMAXPROCS in {2,4,16}; two goroutines never share one *Message (the property speaks of copies). Non-trivial: every history/concurrent run (each mixes all types). Distinct by hash of (pool seed, order / parameters).",
+		Assumptions: commonAssumptions,
+	},
+	"C18": {
+		Race: true, QuickBatches: 8, ThoroughBatches: 64, Parallel: 8, Level: "exploration", Floor: 500, MayBeExhaustive: true,
+		Rule:        "(1) exhaustive: ALL sequences over {Add, snapshot} of length 14 (quick) / 18 (thorough) for every capacity 1..8, each step compared with a 'last N of a list' model and len(Items) read under the queue's own RLock; (2) long runs of 10^5 (quick) / 10^7 (thorough) additions for capacities {1,2,3,5,8,20} with EVERY snapshot checked; (3) concurrent histories: capacities {1,2,3,8}, 1-3 adders x 1-3 snapshot readers, 10-30 operations each, unique message ids, call/return stamps from one atomic counter recorded at the client boundary, checked with porcupine (linearizability against the list model; timeout = inconclusive), size bound checked online, race detector on, GOMAXPROCS in {2,4,16}. Non-trivial: more additions than the capacity (sequential) / at least two concurrent clients (concurrent). Distinct by (capacity, sequence) or hash of the history parameters.",
+		Assumptions: append([]string{"porcupine v1.3.0 decides linearizability of the recorded histories correctly"}, commonAssumptions...),
+	},
 	"C13": {
 		Race: true, QuickBatches: 8, ThoroughBatches: 64, Parallel: 8, Level: "fault_enumeration", Floor: 200,
 		Rule:        "short streams (2-4 small frames, junk, optional truncated tail, some hostile; <= 400 bytes) read through a scripted io.Reader behind bufio by the real file handler with wait 1 ms / tolerance 120 ms. Tolerant scripts: a single end-of-file or i/o timeout at EVERY byte boundary; double faults (eof / 'i/o timeout' text / wrapped os.ErrDeadlineExceeded, any pair) at every 4th boundary; two separate interruptions (single or double) at random boundaries - all bytes must be processed exactly once in order (delivered sequence = the same build's sequential framing of all bytes), the channel closed and an error returned at the final silence. Stop scripts at every (quick: every 3rd) boundary: zero tolerance, another read error, or silence beyond the tolerance followed by data that must not be consumed - delivered = sequential framing of the bytes supplied before the stop (partial frame as non-RTCM), channel closed, error returned. The reader timestamps its faults: a tolerant script on which the handler gave up while two consecutive faults were >= half the tolerance apart is retried and otherwise inconclusive. Non-trivial: the fault falls strictly inside a frame. Distinct by hash of the script.",
